@@ -6,7 +6,7 @@ PID = "C05"
 PROPS = ["Props/C05.v"]
 GEN = ['Env.v']
 MODEL_IS_SPEC = False
-RULE = ("parenthesised-argument grid: every built-in and four test doubles x every parameter x query / call / comparison arguments, plain and in one or two pairs of parentheses (a parenthesised argument is a logical-expr: LogicalType parameters only); "
+RULE = ("built-in grammar stream: loose / faulty / well-typed tests over the five built-in functions with the built-in registry: compile() accepts iff the text is in bf_grammar (Spec/BuiltinGrammar.v: the RFC grammar with well-typed built-in calls, C03_complete_abnf_builtin; membership by the proved-sound recognizer) - both directions; parenthesised-argument grid: every built-in and four test doubles x every parameter x query / call / comparison arguments, plain and in one or two pairs of parentheses (a parenthesised argument is a logical-expr: LogicalType parameters only); "
         "grammatical queries whose function calls are placed without regard to types (any registered or unknown function in test, comparison-operand and argument position; also well-typed expressions with exactly one injected fault: wrong arity or one argument of a type its parameter does not accept; "
         "under '!', inside '&&'/'||', inside parentheses; wrong arity; every argument form) x registries = built-ins plus 0-3 random declarations over Value/Logical/Nodes; "
         "index/slice integers at lo-1, lo, hi, hi+1 for the default and a custom range; the Coq typing judgement + range predicate decide the expected outcome; a case fails if "
@@ -77,6 +77,7 @@ def cases(ctx, budget):
     n = (4000 if ctx.quick else 150000) * budget
     envs = {}
     for c in paren_arg_cases(ctx): yield c
+    for c in builtin_grammar_cases(ctx, budget): yield c
     for i in range(n):
         reg = harness.rand_registry(rng)
         custom = rng.random() < 0.3
@@ -121,6 +122,37 @@ def cases(ctx, budget):
                    harness.compile_req(reg, text, lo, hi), out,
                    [109, lo, hi] + gen.enc_registry(reg4) + gen.enc_segs(q) + wire.enc_str(text), None, True,
                    "custom-range" if custom else "default-range", True, chk)
+
+
+def builtin_grammar_cases(ctx, budget):
+    """compile() against membership in bf_grammar (Spec/BuiltinGrammar.v: the RFC grammar with well-typed calls of the built-in functions, decided by the
+    proved-sound recognizer), both ways, with the built-in registry and the default range: loose / faulty / well-typed tests over the five functions"""
+    rng = ctx.rng
+    env = harness.make_env()
+    reg4 = [r[:4] for r in gen.BUILTINS]
+    names = gen.SIMPLE_NAMES
+    for i in range((1200 if ctx.quick else 40000) * budget):
+        q = []
+        if rng.random() < 0.4: q.append(("child", [("name", "a")]))
+        mode = rng.random()
+        if mode < 0.4: e = gen.loose_test(rng, names, reg4, rng.randint(1, 3))
+        else:
+            e = gen.gen_test(rng, names, reg4, rng.randint(1, 3))
+            if mode < 0.7:
+                e2 = gen.inject_fault(rng, e, names, reg4)
+                e = e2 if e2 is not None else e
+        q.append((rng.choice(["child", "desc"]), [("filter", e)]))
+        text = gen.render_query(rng, q)
+        if any(ord(ch) > 0x10FFFF or 0xD800 <= ord(ch) <= 0xDFFF for ch in text): continue
+        out, c = harness.impl_compile(env, text)
+
+        def chk(impl_out, spec):
+            inb = spec == [1]
+            if impl_out[0] == 2: return "a non-JSONPath exception escaped"
+            if inb and impl_out[0] != 0: return "a string of the grammar with well-typed built-in calls is rejected"
+            if not inb and impl_out[0] == 0: return "compile() accepts a string outside the grammar with well-typed built-in calls"
+            return None
+        yield Case({"text": text, "stream": "builtin-grammar"}, None, out, [121] + wire.enc_str(text), None, "(" in text, "builtin-grammar", True, chk)
 
 
 def replay(ctx, data):
